@@ -357,7 +357,7 @@ def tabs_op_run(ctx, meth, stops, x, sel_):
 def run_c18(ctx, chk):
     chk.assume('A-DIM', 'A-PUB', 'A-TOOL')
     from .rules_c03 import param_fidelity
-    param_fidelity(ctx, chk, fsm=True, prop='C18', finals='g')      # through the parser the numbers arrive as typed (R-CAP)
+    param_fidelity(ctx, chk, fsm=True, prop='C18', finals='g', esc='H', basic='\x09')      # through the parser the numbers arrive as typed (R-CAP)
     sr = ctx.screen_run()
     eng = sr['engine']
     prog = ctx.prog
@@ -678,6 +678,9 @@ def run_c14(ctx, chk):
     missing = [n for n in ('cursor', 'g0_charset', 'g1_charset', 'charset', 'origin', 'wrap') if n not in reads]
     chk.instance('R-COPYALL', short(f), 'every Savepoint field is read back', not missing, detail='fields read: %s' % sorted(reads), span=body.span,
                  what='restore_cursor never reads the saved %s' % missing)
+    # ESC 7 / ESC 8 reach save_cursor / restore_cursor (and nothing else does)
+    from . import rules_c03 as r3
+    r3.dispatch_tables(ctx, chk, 'C14', quiet=True, esc={'7', '8'})
     # the R-PAIR inside resize: one save, one restore on the shrinking path
     f = 'screen::Screen::resize'
     bad = []
